@@ -10,7 +10,7 @@ CONSTANTS Pool,     \* "timers" | "fam46" | "fam4v" | "fam6v" | "as"
 
 (* P(...) = the pick with the pool's factors set and every other factor at its base value *)
 P(las, pm, l4, l6, lv, lh, lk, lg, ra, rh, r4, r6, rv, ro, re, rg, ly, od) ==
-  <<las, pm, l4, l6, lv, lh, lk, lg, ra, rh, r4, r6, rv, ro, re, rg, ly, od, 2>>
+  <<las, pm, l4, l6, lv, lh, lk, lg, ra, rh, r4, r6, rv, ro, re, rg, ly, od, 2, 1>>
 N(i) == 1..FactorSizes[i]
 PoolPicks ==
   CASE Pool = "timers" ->
@@ -26,8 +26,8 @@ PoolPicks ==
          {P(1, 1, 1, l6, lv, 1, 1, 1, 1, 6, 1, r6, rv, ro, 1, 1, 1, od) :
             l6 \in N(4), lv \in N(5), r6 \in N(12), rv \in N(13), ro \in N(14), od \in N(18)}
     [] Pool = "as" ->
-         {P(las, pm, 2, 1, 1, 1, 1, lg, ra, 6, 2, 1, 1, 1, re, rg, ly, od) :
-            las \in N(1), pm \in N(2), lg \in N(8), ra \in N(9), re \in N(15), rg \in N(16), ly \in N(17), od \in N(18)}
+         {[P(las, pm, 2, 1, 1, 1, 1, lg, ra, 6, 2, 1, 1, 1, re, rg, ly, od) EXCEPT ![20] = af] :
+            af \in N(20), las \in N(1), pm \in N(2), lg \in N(8), ra \in N(9), re \in N(15), rg \in N(16), ly \in N(17), od \in N(18)}
 
 VARIABLES pick, cfg, open, res
 vars == <<pick, cfg, open, res>>
